@@ -35,6 +35,9 @@ class CombiningQuery(ASTNode):
     def get_string(self, *args, **kwargs):
         left_str = str(self.left)
         right_str = str(self.right)
+        if isinstance(self.right, CombiningQuery) and not self.right.parentheses:
+            # set operations group to the left: a set operation as the RIGHT operand was written in parentheses
+            right_str = f'({right_str})'
         keyword = self.operation
         if not self.unique:
             keyword += ' ALL'
